@@ -46,6 +46,12 @@ class _Norm(ast.NodeTransformer):
             return None
         return self.generic_visit(node)
 
+    def visit_Call(self, node: ast.Call):
+        node = self.generic_visit(node)
+        if isinstance(node, ast.Call) and all(k.arg is not None for k in node.keywords):
+            node.keywords = sorted(node.keywords, key=lambda k: k.arg)  # keyword order is irrelevant
+        return node
+
     def visit_Name(self, node: ast.Name):
         if node.id in RENAME:
             return ast.copy_location(ast.Name(id=RENAME[node.id], ctx=node.ctx), node)
@@ -130,8 +136,28 @@ def _signature(f: FuncInfo, names: bool = True) -> str:
     return s.replace("asyncio.Future", "Future").replace("'", '"')
 
 
+def _shape(line: str) -> str:
+    """Statement text with every identifier blanked: a name-independent sort key."""
+    try:
+        t = ast.parse(line)
+    except SyntaxError:
+        return line
+    for n in ast.walk(t):
+        if isinstance(n, ast.Name):
+            n.id = "_"
+    return ast.dump(t)
+
+
+def _reorder(lines: List[str], f: FuncInfo) -> List[str]:
+    """Order-insensitive canonical form: statements sorted by shape, then alpha-renamed in that order."""
+    return _alpha(sorted(lines, key=_shape), f)
+
+
 def _compare(r: RuleResult, what: str, fa: FuncInfo, fb: FuncInfo, sa: List[str], sb: List[str]) -> None:
     ok = sa == sb
+    if not ok and len(sa) == len(sb):
+        # independent statements in another order are not a difference
+        ok = _reorder(sa, fa) == _reorder(sb, fb)
     r.ob(ok, {"pair": what, "statements compared": len(sa), "equal": ok})
     if not ok:
         diff = None
